@@ -1,3 +1,4 @@
+import codecs
 import io
 import logging
 import re
@@ -296,6 +297,9 @@ IOType = TypeVar("IOType", TextIO, BinaryIO, AnyIO)
 
 
 class PDFConverter(PDFLayoutAnalyzer, Generic[IOType]):
+    # error handling when characters are encoded for a binary output stream
+    encode_errors = "strict"
+
     def __init__(
         self,
         rsrcmgr: PDFResourceManager,
@@ -308,6 +312,18 @@ class PDFConverter(PDFLayoutAnalyzer, Generic[IOType]):
         self.outfp: IOType = outfp
         self.codec = codec
         self.outfp_binary = self._is_binary_stream(self.outfp)
+        self._encoder: Optional[codecs.IncrementalEncoder] = None
+
+    def _encode(self, text: str) -> bytes:
+        """Encode text for a binary output stream with the requested codec.
+
+        The encoder is incremental, so codecs that start with a byte order
+        mark (utf-16, utf-32) emit it once per stream and not once per write.
+        """
+        if self._encoder is None:
+            encoder_class = codecs.getincrementalencoder(self.codec or "utf-8")
+            self._encoder = encoder_class(self.encode_errors)
+        return self._encoder.encode(text)
 
     @staticmethod
     def _is_binary_stream(outfp: AnyIO) -> bool:
@@ -326,6 +342,9 @@ class PDFConverter(PDFLayoutAnalyzer, Generic[IOType]):
 
 
 class TextConverter(PDFConverter[AnyIO]):
+    # characters the codec cannot represent are dropped, never raised
+    encode_errors = "ignore"
+
     def __init__(
         self,
         rsrcmgr: PDFResourceManager,
@@ -343,7 +362,7 @@ class TextConverter(PDFConverter[AnyIO]):
     def write_text(self, text: str) -> None:
         text = utils.compatible_encode_method(text, self.codec, "ignore")
         if self.outfp_binary:
-            cast(BinaryIO, self.outfp).write(text.encode())
+            cast(BinaryIO, self.outfp).write(self._encode(text))
         else:
             cast(TextIO, self.outfp).write(text)
 
